@@ -675,6 +675,81 @@ pub fn gen_c02(run: &mut Run, seed: u64, thorough: bool) {
             }
         }
     }
+    // directed: (chain, id) pairs that become EQUAL once joined with a separator character — ("a_b","c") / ("a","b_c"), a split
+    // next to the separator, the separator alone — for every separator a key-builder might use; each of the two messages has
+    // its own status, whatever happened to the other
+    {
+        let ws = g.mk_set(2, 0, 2);
+        for (k, sep) in [b'_', b'-', b':', b'/', b'|', b'.', b',', b' ', 0u8, b'#', b'+'].iter().enumerate() {
+            g.new_gateway(&format!("c02-separator-{k}"), vec![ws.clone()], 0, 0);
+            let pairs: Vec<((Vec<u8>, Vec<u8>), (Vec<u8>, Vec<u8>))> = vec![
+                (([b"a".to_vec(), vec![*sep], b"b".to_vec()].concat(), b"c".to_vec()), (b"a".to_vec(), [b"b".to_vec(), vec![*sep], b"c".to_vec()].concat())),
+                (([b"eth".to_vec(), vec![*sep]].concat(), b"0x1".to_vec()), (b"eth".to_vec(), [vec![*sep], b"0x1".to_vec()].concat())),
+                ((vec![*sep], vec![]), (vec![], vec![*sep])),
+            ];
+            for (n, (ka, kb)) in pairs.into_iter().enumerate() {
+                let app = Addr::c(60);
+                let ma = Msg { chain: ka.0.clone(), id: ka.1.clone(), src: b"srcA".to_vec(), contract: app.clone(), ph: keccak(b"A") };
+                let mb = Msg { chain: kb.0.clone(), id: kb.1.clone(), src: b"srcB".to_vec(), contract: app.clone(), ph: keccak(b"B") };
+                let pf = g.honest(&ws, &approve_data_hash(&g.env, &[ma.clone()]));
+                g.approve(&[ma.clone()], &pf, "separator-approve-first");
+                g.q_msg(&ma);
+                g.q_msg(&mb);
+                if n % 2 == 0 {
+                    g.run.op(
+                        &format!("gw.validate_message {} {} {} {} {} {}", app.tok(), hx(&ma.chain), hx(&ma.id), hx(&ma.src), hex::encode(ma.ph), AuthSpec::exact(&[app.clone()]).tok()),
+                        "separator-consume-first",
+                    );
+                    g.q_msg(&mb);
+                }
+                let pf = g.honest(&ws, &approve_data_hash(&g.env, &[mb.clone()]));
+                g.approve(&[mb.clone()], &pf, "separator-approve-second");
+                g.q_msg(&ma);
+                g.q_msg(&mb);
+                g.run.op(
+                    &format!("gw.validate_message {} {} {} {} {} {}", app.tok(), hx(&mb.chain), hx(&mb.id), hx(&mb.src), hex::encode(mb.ph), AuthSpec::exact(&[app.clone()]).tok()),
+                    "separator-consume-second",
+                );
+                g.q_msg(&ma);
+                g.q_msg(&mb);
+            }
+        }
+    }
+    // directed: destinations that are ACCOUNT addresses (an ordinary one, the all-zero one), alone and between two contract
+    // destinations in one batch: recorded and announced like any other (mock authorisations exist for contract addresses only, so
+    // consumption by an account is tried under the blanket authorisation and without any)
+    {
+        let ws = g.mk_set(2, 0, 2);
+        g.new_gateway("c02-account-destinations", vec![ws.clone()], 0, 0);
+        let accts = [Addr { contract: false, id: [7u8; 32] }, Addr { contract: false, id: [0u8; 32] }];
+        for (k, acct) in accts.iter().enumerate() {
+            let mk = |i: u8, to: &Addr| Msg { chain: b"eth".to_vec(), id: vec![b'a', k as u8 + b'0', i], src: b"src".to_vec(), contract: to.clone(), ph: keccak(&[i]) };
+            let alone = mk(0, acct);
+            let pf = g.honest(&ws, &approve_data_hash(&g.env, &[alone.clone()]));
+            g.approve(&[alone.clone()], &pf, "approve-account-destination");
+            g.q_msg(&alone);
+            let batch = vec![mk(1, &Addr::c(60)), mk(2, acct), mk(3, &Addr::c(61))];
+            let pf = g.honest(&ws, &approve_data_hash(&g.env, &batch));
+            g.approve(&batch, &pf, "approve-batch-with-account-destination");
+            for m in &batch {
+                g.q_msg(m);
+            }
+            // a conflicting approval for the same id naming a contract: inert
+            let mut other = alone.clone();
+            other.contract = Addr::c(60);
+            let pf = g.honest(&ws, &approve_data_hash(&g.env, &[other.clone()]));
+            g.approve(&[other.clone()], &pf, "reapprove-account-message-other-destination");
+            g.q_msg(&alone);
+            g.q_msg(&other);
+            for au in ["-", "*"] {
+                g.run.op(
+                    &format!("gw.validate_message {} {} {} {} {} {au}", acct.tok(), hx(&alone.chain), hx(&alone.id), hx(&alone.src), hex::encode(alone.ph)),
+                    &format!("consume-by-account-{}", if au == "-" { "nobody" } else { "everyone" }),
+                );
+                g.q_msg(&alone);
+            }
+        }
+    }
     if thorough {
         // exhaustive sequences of length <= 5 over a 9-letter alphabet on ONE key (one shard does it; the others
         // enumerate length 4 so that no shard repeats the long enumeration)
@@ -1030,6 +1105,49 @@ pub fn gen_c08(run: &mut Run, seed: u64, thorough: bool) {
             }
         }
     }
+    // a VERY long history: more newer sets than any narrow counter can hold (255, 256, 257, … ; thorough: past 65 536 is out of
+    // reach) — the first sets stay refused, the window still ends where it should
+    for ret in if thorough { vec![0u64, 1, 3, 255, 256] } else { vec![0u64, 2] } {
+        let first = g.mk_set(1, 0, 0);
+        let second = g.mk_set(1, 0, 0);
+        g.new_gateway(&format!("c08-long-ret{ret}"), vec![first.clone(), second.clone()], ret, 0);
+        let total = 262usize;
+        for step in 0..total {
+            let cand = g.mk_set(1, 0, 0);
+            g.rotate_honest(&cand, "advance-long");
+            let n = g.sets.len();
+            if n < 250 {
+                continue;
+            }
+            // probe the two oldest sets and the edge of the window
+            let mut es: Vec<usize> = vec![0, 1];
+            for d in 0..=2u64 {
+                let age = ret + d;
+                if (age as usize) < n && age > 0 {
+                    es.push(n - 1 - age as usize);
+                }
+            }
+            es.dedup();
+            for e in es {
+                let set = g.sets[e].clone();
+                let age = (n - 1 - e) as u64;
+                let cls = if age <= ret { "retained" } else { "expired" };
+                let dh = keccak(format!("long-{ret}-{step}-{e}").as_bytes());
+                let pf = g.honest(&set, &dh);
+                g.validate_proof(&dh, &pf, &format!("vp-long-{cls}-age{}", if age > 250 { age.to_string() } else { "edge".into() }));
+                if age > 250 && step % 3 == 0 {
+                    let m = g.fresh_msg();
+                    let pf = g.honest(&set, &approve_data_hash(&g.env, &[m.clone()]));
+                    g.approve(&[m.clone()], &pf, &format!("approve-long-{cls}"));
+                    let cand = g.mk_set(1, 0, 0);
+                    let pf = g.honest(&set, &cand.rotation_data_hash(&g.env));
+                    let op = g.operator.clone();
+                    g.rotate(&cand, &pf, true, &AuthSpec::exact(&[op]), &format!("rotate-bypass-long-{cls}"));
+                }
+            }
+        }
+        g.run.op("gw.epoch", "q");
+    }
 }
 
 // ------------------------------------------------------------------------------------------------
@@ -1088,6 +1206,13 @@ pub fn gen_c09(run: &mut Run, seed: u64, thorough: bool) {
                         t0.saturating_add(delay).saturating_add(5)
                     }
                 };
+                // in every other scenario the owner upgrades the gateway to its own code and migrates (and somebody else tries to)
+                // between the clock-setting event and the probe: an administrative step that must not touch the clock
+                if sc % 2 == 1 {
+                    g.run.op("gw.upgrade_migrate -", "directed-migrate-nobody");
+                    g.run.op("gw.upgrade_migrate @", "directed-migrate-owner");
+                    g.run.op(&format!("gw.upgrade_migrate {}", op.tok()), "directed-migrate-operator");
+                }
                 let (t, name) = match probe {
                     0 => (g.now, "same-instant"),
                     1 => (clock.saturating_add(delay) - 1, "before"),
